@@ -397,7 +397,7 @@ def run(ctx):
                     "pkg/scan/verif_export.go, command/verif_export_c01.go (build tag verif)"]
     ctx.assumptions += ["the target argument reaches the generators only through ip.ParseIPNet (parseDstSubnet, arp RunE)"]
     from checks import tgtlib
-    gen_ok, model_ok, proof_ok = tgtlib.gen_and_prove(ctx, "Spec/C02.vo", "Properties/C02.v")
+    gen_ok, model_ok, proof_ok = tgtlib.gen_and_prove(ctx, "Spec/C02.vo", "Properties/C02.v", more=["Properties/C02Redirect.v"])
     # say which statements of parseExcludeFile differ from the shape the model was written against
     try:
         import difflib
